@@ -49,7 +49,12 @@ def frozen_cache(func):
                 self._frozen_cache[_COUNT_KEY] = _modification_count[0]
             if key not in self._frozen_cache:
                 self._frozen_cache[key] = func(self, *args, **kwargs)
-            return self._frozen_cache[key]
+            value = self._frozen_cache[key]
+            # Hand out a copy of a cached container. The caller (or another query of the library) may sort
+            # or edit the list it was given; that must not change what the frozen model answers next.
+            if type(value) in (list, dict):
+                return value.copy()
+            return value
         return func(self, *args, **kwargs)
 
     return cache
